@@ -272,13 +272,14 @@ func (t *rt) reset() {
 // one log call: run, observe, compare with the reference evaluator
 
 type callInfo struct {
-	part   string // "trees" | "histories"
-	fe     string // front end name
-	family string // core | logger | sugar | grpc
-	field  bool   // the call carries the counting ObjectMarshaler field
-	msg    string
-	lc     zapcore.Core // the core of the logger used (nil for the raw core front end)
-	ctx    func() map[string]any
+	part    string // "trees" | "histories"
+	fe      string // front end name
+	family  string // core | logger | sugar | grpc
+	field   bool   // the call carries the counting ObjectMarshaler field
+	noWrite bool   // Check only: the entry is never written, so nothing may be observed
+	msg     string
+	lc      zapcore.Core // the core of the logger used (nil for the raw core front end)
+	ctx     func() map[string]any
 }
 
 func (t *rt) desc(ci *callInfo, l int8) string {
@@ -311,7 +312,7 @@ func (t *rt) run(rp *reporter, ci *callInfo, l int8, f func()) {
 		t.expHook[i] = 0
 	}
 	enabled := false
-	if t.gate == nil || t.gate(l) {
+	if !ci.noWrite && (t.gate == nil || t.gate(l)) {
 		enabled = expect(t.model, l, t.cur, t.expLeaf, t.expHook)
 	}
 	for i, lf := range t.leaves {
@@ -367,6 +368,8 @@ func (t *rt) run(rp *reporter, ci *callInfo, l int8, f func()) {
 		_, where := hookContext(t.model, i, l, t.cur, false, false)
 		var key string
 		switch {
+		case ci.noWrite:
+			key = "hook:fired-for-an-entry-that-was-checked-but-never-written"
 		case want == 0:
 			key = "hook:fired-though-wrapped-core-rejected:" + where
 		case got == 0:
@@ -388,7 +391,7 @@ func (t *rt) run(rp *reporter, ci *callInfo, l int8, f func()) {
 		// A disabled call below DPanic must stop at the cheap level pre-check
 		// and so must not evaluate lazy With fields. If the core itself claims
 		// to be enabled the cause is the Enabled() defect reported elsewhere.
-		if t.lazyM != 0 && ci.lc != nil && l < lDPanic && !ci.lc.Enabled(zapcore.Level(l)) {
+		if t.lazyM != 0 && !ci.noWrite && ci.lc != nil && l < lDPanic && !ci.lc.Enabled(zapcore.Level(l)) {
 			n := t.lazyM
 			rp.hit("disabled-entry:lazy-with-fields-evaluated:"+ci.family, func() (string, any) {
 				return t.desc(ci, l) + fmt.Sprintf(": the entry is disabled (Enabled reports false, no leaf accepts) yet the lazy With fields were marshaled %d times", n), t.replay(ci, l)
